@@ -159,7 +159,7 @@ func c04Check(c *Ctx, spec *gen.TableSpec, aligns []int, decos []namedDeco, st *
 			c.Rec.Count("outputs_with_right_or_centre_alignment", 1)
 		}
 		c.Rec.Count("lines_parsed", int64(strings.Count(out, "\n")))
-		if perr := model.ParseTextTable(out, nd.glyphs, nd.boxless, m, length.StringCells); perr != nil {
+		if perr := parseText(out, nd, m); perr != nil {
 			// classify: does it at least parse with any split of the padding?
 			loose := *m
 			loose.Aligns = nil
